@@ -196,7 +196,7 @@ impl Machine {
             cost += c as u32;
             if with_modules {
                 // as in Cpu::run: `state * 3`, then update_modules
-                let r = std::panic::catch_unwind(std::panic::AssertUnwindSafe(|| cpu.vh_update_modules(c.wrapping_mul(3))));
+                let r = std::panic::catch_unwind(std::panic::AssertUnwindSafe(|| cpu.vh_update_modules(u16::from(c) * 3)));
                 match r {
                     Ok(Ok(())) => {}
                     Ok(Err(_)) => {
